@@ -896,3 +896,80 @@ def _export_roundtrip(pv, uid):
         return pl2py(res[0][0])
     finally:
         os.unlink(fn)
+
+
+# ------------------------------------------------------------------ C12 semirings
+def semiring_ops(cases):
+    """Apply the real semirings to rational operands; return for each (case, semiring) the result as a float
+    (log semiring: exp of the result; symbolic: arithmetic value of the expression)."""
+    import math
+    from problog.evaluator import SemiringProbability, SemiringLogProbability, SemiringSymbolic, Semiring
+    from problog.logic import Constant
+    out = []
+
+    def conv_in(sr, name, q):
+        v = q[0] / q[1]
+        if name == "prob":
+            return v
+        if name == "log":
+            return math.log(v) if v > 0 else float("-inf")
+        return "1" if q[0] == q[1] else ("0" if q[0] == 0 else repr(v))
+
+    def conv_out(name, r):
+        if name == "prob":
+            return float(r)
+        if name == "log":
+            return math.exp(r)
+        return float(eval(str(r), {"__builtins__": {}}, {}))
+
+    for c in cases:
+        res = {"id": c["id"]}
+        for name, sr in (("prob", SemiringProbability()), ("log", SemiringLogProbability()), ("symbolic", SemiringSymbolic())):
+            try:
+                op = c["op"]
+                if op in ("plus", "times", "normalize"):
+                    r = getattr(sr, op)(conv_in(sr, name, c["a"]), conv_in(sr, name, c["b"]))
+                elif op == "negate":
+                    r = sr.negate(conv_in(sr, name, c["a"]))
+                elif op == "value":
+                    r = sr.value(Constant(c["a"][0] / c["a"][1]))
+                elif op == "ad_complement":
+                    r = sr.ad_complement([conv_in(sr, name, w) for w in c["ws"]])
+                elif op == "one":
+                    r = sr.one()
+                elif op == "zero":
+                    r = sr.zero()
+                res[name] = {"ok": 1, "v": conv_out(name, r)}
+                if op == "one":
+                    res[name]["is_one"] = bool(sr.is_one(r))
+                if op == "zero":
+                    res[name]["is_zero"] = bool(sr.is_zero(r))
+            except ZeroDivisionError:
+                res[name] = {"ok": 0, "err": "ZeroDivisionError"}
+            except Exception as e:
+                res[name] = {"ok": 0, "err": type(e).__name__ + ": " + str(e)[:80]}
+        out.append(res)
+
+    # documented base-class defaults on a minimal subclass
+    class Mini(Semiring):
+        def one(self):
+            return 1.0
+
+        def zero(self):
+            return 0.0
+
+        def plus(self, a, b):
+            return a + b
+
+        def times(self, a, b):
+            return a * b
+    m = Mini()
+    base = {}
+    for nm, f in (("is_one(one())", lambda: m.is_one(m.one())), ("is_zero(zero())", lambda: m.is_zero(m.zero())),
+                  ("normalize(a, one()) == a", lambda: m.normalize(0.3, m.one()) == 0.3),
+                  ("not is_one(zero())", lambda: not m.is_one(m.zero()))):
+        try:
+            base[nm] = bool(f())
+        except Exception as e:
+            base[nm] = "%s: %s" % (type(e).__name__, e)
+    return {"results": out, "base": base}
